@@ -456,11 +456,11 @@ func Load(cfg LoadConfig) (*Prog, error) {
 		for _, nme := range sc.Names() {
 			switch o := sc.Lookup(nme).(type) {
 			case *types.Func:
-				anyNew = anyNew || (!o.Exported() && isNew(o))
+				anyNew = anyNew || isNew(o)
 			case *types.TypeName:
 				if n, ok := o.Type().(*types.Named); ok {
 					for i := 0; i < n.NumMethods(); i++ {
-						anyNew = anyNew || (!n.Method(i).Exported() && isNew(n.Method(i)))
+						anyNew = anyNew || isNew(n.Method(i))
 					}
 				}
 			}
